@@ -175,7 +175,7 @@ ASSUME = ["loop direction is consistent (incrementing with </<=, decrementing wi
 
 class C17Spec(v_okl.Spec):
     rule, assume = RULE, ASSUME
-    quick, thorough = (5, 24), (200, 40)
+    quick, thorough = (5, 24), (300, 24)
     program = staticmethod(program)
     render = staticmethod(render)
     valid = staticmethod(const_eval_ok)
